@@ -109,7 +109,20 @@ def extract_library():
         raise TieBroken('cannot extract the unit library: %s: %s' % (type(e).__name__, e))
 
 
-def write_generated(table, prefixes, base_names):
+def probe_prefix_guard():
+    """Does the tree under test refuse to put a prefix on a unit that an earlier prefix scan added?
+    ('dam' after 'am' had been used: decameter (guarded) or deci-attometer (pinned snapshot))."""
+    U = reset_library()
+    try:
+        U._find_unit('am')
+        u = U._find_unit('dam')
+        guarded = u is not None and abs(float(u._factor) - 10.0) < 1e-9
+    finally:
+        reset_library()
+    return bool(guarded)
+
+
+def write_generated(table, prefixes, base_names, guard=True):
     offs = [n for n, f, o, p, al in table if o != 0]
     si = [(k, v) for k, v in prefixes if k in GOLDEN_PREFIX]
     L = []
@@ -141,7 +154,8 @@ def write_generated(table, prefixes, base_names):
         A('  (%s, %s)%s' % (lean_str(n), lean_rat(v), ',' if k + 1 < len(prefixes) else ''))
     A(']')
     A('')
-    A('def lib : Lib := { table := unitTable, prefixes := prefixes, baseNames := baseNames }')
+    A('def lib : Lib := { table := unitTable, prefixes := prefixes, baseNames := baseNames,')
+    A('                   guardPrefixed := %s }' % ('true' if guard else 'false'))
     A('')
     A('/-- the units that carry an offset in the shipped library -/')
     A('def offsetUnits : List String := [%s]' % ', '.join(lean_str(b) for b in offs))
@@ -741,13 +755,20 @@ class C06(Property):
     # -- translator ------------------------------------------------------------------------------
     def translate(self):
         table, prefixes, base_names = extract_library()
-        offs = write_generated(table, prefixes, base_names)
+        try:
+            guard = probe_prefix_guard()
+        except Exception as e:
+            raise TieBroken('prefix-guard probe failed: %s: %s' % (type(e).__name__, e))
+        offs = write_generated(table, prefixes, base_names, guard)
         self.spec = Spec(table, prefixes, base_names)
         bad = [k for k, v in prefixes if k in GOLDEN_PREFIX and not close(v, GOLDEN_PREFIX[k], k=0.01)]
         facts = ['unit table regenerated from the live library: %d units, %d prefixes, %d base units, '
                  'offset units %s' % (len(table), len(prefixes), len(base_names), offs)]
         if bad:
             facts.append('prefix multipliers that are not the SI/IEC values: %s' % bad)
+        facts.append('prefix applied to a unit added by an earlier prefix scan: %s -> model run with '
+                     'guardPrefixed=%s' % ('refused (repaired)' if guard else 'accepted (as pinned)',
+                                           'true' if guard else 'false'))
         facts.extend(self.quirk_facts())
         return facts
 
